@@ -766,8 +766,15 @@ impl Model {
             }
         }
         if n.kind == Kind::Fragment {
-            // DocumentFragment is a stub in this DOM (always empty, "TODO: re-implement"): any refusal, or no effect
-            let mut p = Plan::lenient("fragment as new child");
+            // DOM Level 1: the children of the fragment are inserted; a fragment of this DOM is always
+            // empty (it has no mutators), so the call succeeds and changes nothing
+            if !errs.is_empty() {
+                errs.push(ErrClass::Hierarchy);
+                errs.sort();
+                errs.dedup();
+                return Plan::fail(errs);
+            }
+            let mut p = Plan::ok();
             p.no_effect = true;
             return p;
         }
@@ -910,9 +917,8 @@ impl Model {
             p.adopt = vec![recv];
             return p;
         }
-        if either_doc_el {
-            return Plan::either(vec![ErrClass::Hierarchy], "document element replaced by element");
-        }
+        // the document element replaced by another element: one element before, one after (legal)
+        let _ = either_doc_el;
         Plan::ok()
     }
 
